@@ -474,29 +474,34 @@ Proof.
     + intros ? [].
     + auto.
     + intros _. split; [reflexivity|intros ? []].
-  - destruct (pend_facts p (Hsub p (or_introl eq_refl))) as (m & d & rc & PF).
+  - inversion Hnd as [|? ? Hnotin Hnd']; subst.
+    destruct (pend_facts p (Hsub p (or_introl eq_refl))) as (m & d & rc & PF).
     pose proof (labels_plain_ok t (l_labels _ L)) as Lok.
     simpl. rewrite (pf_target _ _ _ _ PF).
     destruct (clookup_join t c rc Lok Cc (pf_rc _ _ _ _ PF)) as [Hr1 Hc1].
     destruct (clookup t c (join [SL] rc)) as [r1 c1] eqn:E1. simpl in Hr1, Hc1.
-    inversion Hnd as [|? ? Hnotin Hnd']; subst.
     assert (Hsub' : forall q, In q r -> In q ps0) by (intros q Hq; apply Hsub; now right).
     destruct r1 as [x|].
     + (* resolved now *)
       destruct (clookup_join t c1 rc Lok Hc1 (pf_rc _ _ _ _ PF)) as [Hr2 Hc2].
       destruct (clookup t c1 (join [SL] rc)) as [r2 c2] eqn:E2. simpl in Hr2, Hc2.
       rewrite <- Hr1 in Hr2. subst r2.
-      rewrite (l_kinds _ L), (pf_dirk _ _ _ _ PF).
+      assert (Hkd : nth_error (t_kinds t) (p_dir p) = Some IDir) by (rewrite (l_kinds _ L); apply PF).
+      rewrite Hkd.
       destruct (resolve_step t p m d rc x L PF (Hfree p (or_introl eq_refl)) (eq_sym Hr1)) as (L2 & E2' & R2 & Fr2).
       set (t2 := mkt (t_kinds t) (eset (p_dir p, p_fname p) x (t_edges t))) in *.
       assert (Cc2 : caches_ok t2 (mkc (c_ec c2) [])) by (apply (caches_ok_ext t); auto).
       destruct (IH t2 (mkc (c_ec c2) []) L2 Cc2 Hsub' Hnd') as (t' & c' & k & Hrd & L' & Cc' & E' & K1 & K2 & K3 & K4 & K5 & K6).
       { intros q Hq. rewrite Fr2; [apply Hfree; now right|]. intros Eq. apply Hnotin. apply in_map_iff. exists q. now split. }
       change (p_dir p, p_fname p) with (pkey p). simpl v_clear_inv. cbv iota.
-      exists t', c', k. splits; auto.
+      exists t', c', k. splits.
       * exact Hrd.
+      * exact L'.
+      * exact Cc'.
       * eapply ext_trans; eauto.
       * intros q Hq. right. now apply K1.
+      * exact K2.
+      * exact K3.
       * intros q [<-|Hq]; [right; now apply (resolved_ext t2)|]. destruct (K4 q Hq); [now left|now right].
       * intros key Hkey. rewrite K5; [apply Fr2|]; [intros Eq; apply (Hkey p (or_introl eq_refl)); now symmetry|].
         intros q Hq. apply Hkey. now right.
@@ -504,7 +509,11 @@ Proof.
     + (* still pending *)
       destruct (IH t c1 L Hc1 Hsub' Hnd') as (t' & c' & k & Hrd & L' & Cc' & E' & K1 & K2 & K3 & K4 & K5 & K6).
       { intros q Hq. apply Hfree. now right. }
-      rewrite Hrd. exists t', c', (p :: k). splits; auto.
+      rewrite Hrd. exists t', c', (p :: k). splits.
+      * reflexivity.
+      * exact L'.
+      * exact Cc'.
+      * exact E'.
       * intros q [<-|Hq]; [now left|right; now apply K1].
       * simpl. constructor; [|exact K2]. intros Hin. apply Hnotin. apply in_map_iff in Hin as (q & Hq1 & Hq2).
         apply in_map_iff. exists q. split; [exact Hq1|now apply K1].
@@ -516,5 +525,275 @@ Proof.
         split; [reflexivity|]. intros q [<-|Hq]; [|now apply Hall].
         unfold twalk. rewrite (pf_target _ _ _ _ PF). rewrite plookup_join by apply PF. now symmetry.
 Qed.
+
+(* ---------- the loop ---------- *)
+Lemma loop_spec fuel : forall t c ps lastlen,
+  linv t -> caches_ok t c -> (forall p, In p ps -> In p ps0) -> NoDup (map pkey ps) ->
+  (forall p, In p ps -> eget (pkey p) (t_edges t) = None) ->
+  (forall p, In p ps0 -> In p ps \/ resolved t p) ->
+  (length ps = lastlen -> forall p, In p ps -> twalk t p = None) ->
+  length ps < fuel ->
+  exists t' c' psf,
+    loop fuel repaired t c ps lastlen = Ok (t', c') /\ linv t' /\ caches_ok t' c' /\ ext t t' /\
+    (forall p, In p ps0 -> In p psf \/ resolved t' p) /\
+    (forall p, In p psf -> twalk t' p = None /\ eget (pkey p) (t_edges t') = None).
+Proof.
+  induction fuel as [|fu IH]; intros t c ps lastlen L Cc Hsub Hnd Hfree Hall Hstop Hfuel; [lia|].
+  simpl. destruct (is_nil ps || Nat.eqb (length ps) lastlen) eqn:Hs.
+  - exists t, c, ps. splits; auto using ext_refl.
+    intros p Hp. split; [|now apply Hfree].
+    apply orb_true_iff in Hs as [Hs|Hs]; [apply is_nil_true in Hs; subst; destruct Hp|].
+    apply Nat.eqb_eq in Hs. now apply Hstop.
+  - apply orb_false_iff in Hs as [Hs1 Hs2]. apply is_nil_false in Hs1.
+    destruct (round_spec ps t c L Cc Hsub Hnd Hfree) as (t' & c' & k & Hrd & L' & Cc' & E' & K1 & K2 & K3 & K4 & K5 & K6).
+    rewrite Hrd.
+    assert (Hall' : forall p, In p ps0 -> In p k \/ resolved t' p).
+    { intros p Hp. destruct (Hall p Hp) as [H|H]; [now apply K4|right; now apply (resolved_ext t)]. }
+    assert (Hsubk : forall p, In p k -> In p ps0) by (intros p Hp; apply Hsub; now apply K1).
+    pose proof (round_len _ _ _ _ _ _ _ Hrd) as Hle.
+    destruct (Nat.eq_dec (length k) (length ps)) as [Heq|Hne].
+    + destruct (K6 Heq) as [-> Hfail].
+      destruct fu as [|fu']; [destruct ps; [congruence|simpl in Hfuel; lia]|].
+      simpl. rewrite Heq, Nat.eqb_refl, orb_true_r.
+      exists t, c', k. splits; auto using ext_refl;
+        try (intros p Hp; split; [apply Hfail; now apply K1|now apply K3]).
+    + destruct (IH t' c' k (length ps) L' Cc' Hsubk K2 K3 Hall') as (t'' & c'' & psf & Hl & L'' & Cc'' & E'' & A1 & A2).
+      * intros Heq. congruence.
+      * lia.
+      * exists t'', c'', psf. splits; auto. eapply ext_trans; eauto.
+Qed.
+
+Lemma phase2_spec :
+  exists tF cF psf,
+    loop (S (S (length ps0))) repaired t1 no_caches ps0 0 = Ok (tF, cF) /\ linv tF /\ caches_ok tF cF /\
+    (forall p, In p ps0 -> In p psf \/ resolved tF p) /\
+    (forall p, In p psf -> twalk tF p = None /\ eget (pkey p) (t_edges tF) = None).
+Proof.
+  destruct (loop_spec (S (S (length ps0))) t1 no_caches ps0 0 linv_t1 (caches_ok_empty t1)) as (tF & cF & psf & H1 & H2 & H3 & _ & H4 & H5); auto.
+  - apply pkeys_nodup.
+  - intros p Hp. now apply key_fresh_t1.
+  - intros Hl p Hp. destruct ps0; [destruct Hp|discriminate].
+  - exists tF, cF, psf. splits; auto.
+Qed.
+
+(* ---------- the final index ---------- *)
+Section Final.
+Variable tF : tbl.
+Variable psf : list pend.
+Hypothesis LF : linv tF.
+Hypothesis HF4 : forall p, In p ps0 -> In p psf \/ resolved tF p.
+Hypothesis HF5 : forall p, In p psf -> twalk tF p = None /\ eget (pkey p) (t_edges tF) = None.
+
+(* the fixpoint: a link whose (lexical) target can be walked in the final index has its entry *)
+Lemma fixpoint_edge m d pa k j tc j0 :
+  In m ms -> m_kind m = KLink d -> entry_path m = Some (pa ++ [k]) -> nth_error P j = Some pa ->
+  target_comps pa d = Some tc -> walk tF 0 tc = Some j0 -> eget (j, k) (t_edges tF) = Some j0.
+Proof.
+  intros Hm Hk He Hpj Htc Hw.
+  destruct (entry_path_base m _ He) as [Hb Ep]. apply app_inj_tail in Ep as [-> ->].
+  assert (Hl : link_member m = true).
+  { unfold link_member, is_link. rewrite Hk. simpl. now apply nonempty_true. }
+  destruct (member_pend m Hm Hl) as (p & Hp & (A1 & A2 & A3 & A4 & A5 & A6)).
+  assert (Ej : j = p_dir p) by (eapply P_inj; eauto). subst j.
+  destruct (pend_facts p Hp) as (m' & d' & rc & PF).
+  assert (m' = m).
+  { apply (entry_unique ms m' m (name_levels (m_name m) ++ [name_base (m_name m)]) W (pf_in _ _ _ _ PF) Hm); [|exact He].
+    pose proof (pf_dir _ _ _ _ PF) as D. rewrite A5 in D. injection D as EL.
+    rewrite (pf_entry _ _ _ _ PF), <- EL, A2. reflexivity. }
+  subst m'. pose proof (pf_kind _ _ _ _ PF) as Hk'. rewrite Hk in Hk'. inversion Hk'; subst d'.
+  assert (rc = tc).
+  { destruct (pf_tc _ _ _ _ PF) as [H|[H _]]; rewrite Htc in H; [now inversion H|discriminate]. }
+  subst rc.
+  assert (Etw : twalk tF p = Some j0).
+  { unfold twalk. rewrite (pf_target _ _ _ _ PF). rewrite plookup_join by apply PF. exact Hw. }
+  change (p_dir p, name_base (m_name m)) with (p_dir p, name_base (m_name m)). rewrite <- A2.
+  change (p_dir p, p_fname p) with (pkey p).
+  destruct (HF4 p Hp) as [Hin|(j' & H1 & H2)].
+  - destruct (HF5 p Hin) as [H _]. congruence.
+  - congruence.
+Qed.
+
+Lemma is_dirpath_removelast p : is_dirpath ms p -> is_dirpath ms (removelast p).
+Proof.
+  intros [->|(m & Hm & Hp)]; [now left|]. right. exists m. split; [exact Hm|].
+  destruct p as [|x p]; [reflexivity|]. eapply prefix_trans; [|exact Hp].
+  apply path_prefixb_spec. exists [last (x :: p) x]. apply app_removelast_last. discriminate.
+Qed.
+
+Lemma repeat_app_nil {A} (x : A) k l : repeat x k ++ l = [] -> k = 0 /\ l = [].
+Proof. destruct k; simpl; [now split|discriminate]. Qed.
+
+(* completeness: what the OS resolves, the final index resolves *)
+Lemma complete cur comps r :
+  os_res f cur comps r ->
+  forall j k names,
+    nth_error P j = Some cur -> nth_error (t_kinds t1) j = Some IDir ->
+    comps = repeat P_DOTDOT k ++ names -> Forall plain names ->
+    k <= length cur /\
+    exists i, walk tF 0 (firstn (length cur - k) cur ++ names) = Some i /\ nth_error P i = Some r.
+Proof.
+  induction 1 as [cur|cur c rest r Hskip _ IH|cur rest r Hne _ IH|cur c rest r Hside Hget _ IH|cur c d Hside Hget
+                 |cur c d rest r Hside Hget Hd _ IH]; intros j k names Hpj Hkj Hshape Hpl.
+  - symmetry in Hshape. apply repeat_app_nil in Hshape as [-> ->]. split; [lia|].
+    rewrite Nat.sub_0_r, firstn_all, app_nil_r. exists j. split; [|exact Hpj].
+    eapply walk_ext; [apply LF|]. now apply (g_reach _ _ G).
+  - exfalso. destruct k as [|k]; simpl in Hshape.
+    + subst names. inversion Hpl; subst. rewrite (plain_not_skip c) in Hskip by assumption. discriminate.
+    + inversion Hshape; subst c. discriminate Hskip.
+  - destruct k as [|k]; simpl in Hshape.
+    + subst names. inversion Hpl as [|? ? Hc _]; subst. discriminate Hc.
+    + inversion Hshape as [Hrest]. clear Hshape.
+      assert (Hdp : is_dirpath ms (removelast cur)).
+      { apply is_dirpath_removelast. eapply (c_dir_sound _ _ _ _ C); eauto. }
+      destruct (c_dir_complete _ _ _ _ C _ Hdp) as (j' & Hpj' & Hkj').
+      destruct (IH j' k names Hpj' Hkj' Hrest Hpl) as (Hle & i & Hw & Hpi).
+      rewrite removelast_length in Hle, Hw.
+      assert (Hlen : length cur <> 0) by (destruct cur; [congruence|discriminate]).
+      split; [lia|]. exists i. split; [|exact Hpi].
+      rewrite firstn_removelast in Hw by lia. now replace (length cur - S k) with (length cur - 1 - k) by lia.
+  - destruct k as [|k]; simpl in Hshape.
+    2:{ inversion Hshape; subst c. discriminate Hside. }
+    subst names. inversion Hpl as [|? ? Hc Hrest]; subst. split; [lia|].
+    assert (Hdp : is_dirpath ms (cur ++ [c])) by (apply (f_dir _ _ F) in Hget; tauto).
+    destruct (c_dir_complete _ _ _ _ C _ Hdp) as (j1 & Hpj1 & Hkj1).
+    destruct (IH j1 0 rest Hpj1 Hkj1 eq_refl Hrest) as (_ & i & Hw & Hpi).
+    rewrite Nat.sub_0_r, firstn_all in *. rewrite <- app_assoc in Hw. now exists i.
+  - destruct k as [|k]; simpl in Hshape.
+    2:{ inversion Hshape; subst c. discriminate Hside. }
+    subst names. split; [lia|]. rewrite Nat.sub_0_r, firstn_all.
+    apply (f_file _ _ F) in Hget as (m' & Hm' & He & Hk).
+    destruct (In_nth_error _ _ Hm') as [k' Hn].
+    assert (Hen : is_entry ms k' (cur ++ [c])).
+    { exists m'. splits; auto. unfold is_link. now rewrite Hk. }
+    destruct (c_file_complete _ _ _ _ C _ _ Hen) as (i & Hpi & _). exists i. split; [|exact Hpi].
+    eapply walk_ext; [apply LF|]. now apply (g_reach _ _ G).
+  - destruct k as [|k]; simpl in Hshape.
+    2:{ inversion Hshape; subst c. discriminate Hside. }
+    subst names. inversion Hpl as [|? ? Hc Hrest]; subst. split; [lia|]. rewrite Nat.sub_0_r, firstn_all.
+    apply (f_link _ _ F) in Hget as (m & Hm & He & Hk).
+    pose proof (nice_member ms m d NL Hm Hk) as Hn.
+    (* the lexical target and its walk in the final index *)
+    assert (Htw : exists tc i, target_comps cur d = Some tc /\ walk tF 0 (tc ++ rest) = Some i /\ nth_error P i = Some r).
+    { unfold link_comps in IH. unfold target_comps. unfold nice_dest in Hn.
+      destruct d as [|ch d']; [congruence|]. destruct (N.eqb ch SL) eqn:Ech.
+      - cbn [fst snd] in IH. destruct (g_root _ _ G) as [R1 R2].
+        assert (Hq : filter nonempty (split_on SL d') = qcomps d' /\ Forall plain (qcomps d')).
+        { destruct d' as [|c2 d2]; [split; [reflexivity|constructor]|]. simpl in Hn. apply forallb_plain in Hn.
+          split; [now apply filter_nonempty_plain|exact Hn]. }
+        destruct Hq as [Hq1 Hq2]. rewrite Hq1 in IH.
+        destruct (IH 0 0 (qcomps d' ++ rest) R1 R2 eq_refl) as (_ & i & Hw & Hpi).
+        { apply Forall_app. now split. }
+        simpl in Hw. exists (qcomps d'), i. now splits.
+      - pose proof (strip_dotdots_spec (split_on SL (ch :: d'))) as Hs.
+        destruct (strip_dotdots (split_on SL (ch :: d'))) as [k' dn] eqn:Est. cbn [fst snd] in Hs, Hn, IH.
+        apply forallb_plain in Hn.
+        destruct (IH j k' (dn ++ rest) Hpj Hkj) as (Hle & i & Hw & Hpi).
+        { rewrite Hs. now rewrite <- app_assoc. }
+        { apply Forall_app. now split. }
+        apply Nat.leb_le in Hle. rewrite Hle. exists (firstn (length cur - k') cur ++ dn), i.
+        rewrite <- app_assoc. now splits. }
+    destruct Htw as (tc & i & Htc & Hw & Hpi).
+    rewrite walk_app in Hw. destruct (walk tF 0 tc) as [j0|] eqn:Hw0; [|discriminate].
+    pose proof (fixpoint_edge m d cur c j tc j0 Hm Hk He Hpj Htc Hw0) as Hedge.
+    exists i. split; [|exact Hpi].
+    rewrite walk_app. rewrite (walk_ext _ _ _ _ _ (l_ext _ LF) (g_reach _ _ G _ _ Hpj)).
+    simpl. rewrite (l_kinds _ LF), Hkj, Hedge. exact Hw.
+Qed.
+
+Lemma path_of i : i < length P -> exists p, nth_error P i = Some p.
+Proof. intros H. destruct (nth_error P i) eqn:E; [eauto|apply nth_error_None in E; lia]. Qed.
+
+Lemma JF : Jsound tF.
+Proof. apply J_gen; apply LF. Qed.
+
+(* the two resolutions agree on every path made of proper names *)
+Theorem index_is_os q r :
+  Forall plain q ->
+  ((exists i, walk tF 0 q = Some i /\ nth_error P i = Some r) <-> os_res f [] q r).
+Proof.
+  intros Hq. destruct (g_root _ _ G) as [R1 R2]. split.
+  - intros (i & Hw & Hpi). exact (JF q 0 i [] r Hw R1 Hpi).
+  - intros H. destruct (complete [] q r H 0 0 q R1 R2 eq_refl Hq) as (_ & i & Hw & Hpi). simpl in Hw. now exists i.
+Qed.
+
+Lemma walk_lt q i : walk tF 0 q = Some i -> i < length P.
+Proof. intros H. eapply walk_closed; eauto using root_lt. Qed.
+
+Lemma file_data i k p :
+  nth_error (t_kinds tF) i = Some (IFile k) -> nth_error P i = Some p ->
+  fs_get p f = Some (TFile (member_data ms k)).
+Proof.
+  intros Hk Hp. rewrite (l_kinds _ LF) in Hk.
+  destruct (c_file_sound _ _ _ _ C _ _ _ Hk Hp) as (m & Hn & Hnl & He).
+  destruct (entry_kfile m p (nth_error_In _ _ Hn) Hnl He) as [d Hd].
+  unfold member_data. rewrite Hn, Hd. apply (f_file _ _ F). exists m. splits; eauto using nth_error_In.
+Qed.
+
+Lemma dir_children i p :
+  nth_error (t_kinds tF) i = Some IDir -> nth_error P i = Some p ->
+  (forall n, In n (dir_names tF i) -> plain n) /\
+  (forall n, plain n -> (In n (dir_names tF i) <-> exists r', os_res f p [n] r')).
+Proof.
+  intros Hk Hp. split.
+  - intros n Hn. unfold dir_names in Hn. apply in_map_iff in Hn as ([[a k] j] & <- & Hin).
+    apply filter_In in Hin as [Hin _]. now apply (l_labels _ LF a k j).
+  - intros n Hn. split.
+    + intros Hin. unfold dir_names in Hin. apply in_map_iff in Hin as ([[a k] j] & E & Hin). simpl in E. subst k.
+      apply filter_In in Hin as [Hin Ha]. simpl in Ha. apply Nat.eqb_eq in Ha. subst a.
+      assert (Hg : exists j', eget (i, n) (t_edges tF) = Some j').
+      { clear - Hin. induction (t_edges tF) as [|[k' v'] E IH]; [destruct Hin|]. simpl.
+        destruct (ekey_eqb (i, n) k') eqn:Q; [eauto|]. destruct Hin as [Hin|Hin]; [|now apply IH].
+        inversion Hin; subst. now rewrite ekey_eqb_refl in Q. }
+      destruct Hg as [j' Hg].
+      assert (Hw : walk tF i [n] = Some j') by (rewrite walk_step, Hk; exact Hg).
+      destruct (path_of j') as [pj' Hpj']; [eapply (l_closed _ LF); eauto using eget_In|].
+      exists pj'. exact (JF [n] i j' p pj' Hw Hp Hpj').
+    + intros [r' H]. rewrite (l_kinds _ LF) in Hk.
+      destruct (complete p [n] r' H i 0 [n] Hp Hk eq_refl) as (_ & i' & Hw & _); [now constructor|].
+      rewrite Nat.sub_0_r, firstn_all, walk_app in Hw.
+      rewrite (walk_ext _ _ _ _ _ (l_ext _ LF) (g_reach _ _ G _ _ Hp)) in Hw.
+      rewrite walk_step, (l_kinds _ LF), Hk in Hw.
+      unfold dir_names. apply in_map_iff. exists ((i, n), i'). split; [reflexivity|].
+      apply filter_In. split; [now apply eget_In|simpl; apply Nat.eqb_refl].
+Qed.
+
+(* a link IS its (lexically normalised) target, looked up in the final index itself *)
+Lemma link_alias m d :
+  In m ms -> m_kind m = KLink d -> name_base (m_name m) <> [] ->
+  plookup tF (m_name m) =
+  match target_comps (name_levels (m_name m)) d with
+  | Some tc => walk tF 0 tc
+  | None => None
+  end.
+Proof.
+  intros Hm Hk Hb.
+  assert (Hl : link_member m = true).
+  { unfold link_member, is_link. rewrite Hk. simpl. now apply nonempty_true. }
+  destruct (member_pend m Hm Hl) as (p & Hp & (A1 & A2 & A3 & A4 & A5 & A6)).
+  destruct (pend_facts p Hp) as (m' & d' & rc & PF).
+  destruct (link_member_entry m Hl) as (d0 & _ & He).
+  assert (m' = m).
+  { apply (entry_unique ms m' m _ W (pf_in _ _ _ _ PF) Hm); [|exact He].
+    pose proof (pf_dir _ _ _ _ PF) as D. rewrite A5 in D. injection D as EL.
+    rewrite (pf_entry _ _ _ _ PF), <- EL, A2. reflexivity. }
+  subst m'. pose proof (pf_kind _ _ _ _ PF) as Hk'. rewrite Hk in Hk'. inversion Hk'; subst d'.
+  pose proof (wf_name_ok ms m W Hm) as Hok.
+  destruct (name_ok_levels m Hok) as [_ HLok].
+  (* the left side: one step from the link's directory *)
+  assert (Hlhs : plookup tF (m_name m) = eget (pkey p) (t_edges tF)).
+  { rewrite (name_join m Hok) at 1. rewrite plookup_join.
+    2:{ apply Forall_app. split; [exact HLok|]. constructor; [|constructor]. split; [apply base_no_sl|exact Hb]. }
+    rewrite walk_app. rewrite (walk_ext _ _ _ _ _ (l_ext _ LF) (g_reach _ _ G _ _ A5)).
+    rewrite walk_step, (l_kinds _ LF), A6. unfold pkey. now rewrite A2. }
+  assert (Htw : twalk tF p = walk tF 0 rc).
+  { unfold twalk. rewrite (pf_target _ _ _ _ PF). apply plookup_join. apply PF. }
+  assert (Halias : eget (pkey p) (t_edges tF) = twalk tF p).
+  { destruct (HF4 p Hp) as [Hin|(j & H1 & H2)]; [destruct (HF5 p Hin); congruence|congruence]. }
+  rewrite Hlhs, Halias, Htw.
+  destruct (pf_tc _ _ _ _ PF) as [H|[H [rest ->]]]; rewrite H; [reflexivity|].
+  now apply walk_dotdot.
+Qed.
+
+End Final.
 
 End Phase2.
